@@ -605,8 +605,6 @@ class Exhaustive(Family):
                     flags = [(mask >> u) & 1 for u in range(n)]
                     if n >= 6 and sum(flags) > 5:
                         continue
-                    if n >= 5 and tier == "quick" and sum(flags) > 4:
-                        continue
                     yield {"parent": parent, "flags": flags, "K": K}
 
     @staticmethod
